@@ -66,6 +66,7 @@ func Spec() *evid.Spec {
 		MinNontrivial: 60,
 		Lanes: []evid.Lane{
 			{Name: "fuzz", Children: evid.Const(16, 16), Cases: evid.Const(8000, 312500), TimeoutS: evid.Const(900, 7200), Setup: setup, Run: run},
+			{Name: "fuzz-asan", Asan: true, Children: evid.Const(0, 16), Cases: evid.Const(0, 20000), TimeoutS: evid.Const(1200, 7200), Setup: setup, Run: run},
 			{Name: "fuzz-race", Race: true, Children: evid.Const(16, 16), Cases: evid.Const(1000, 30000), TimeoutS: evid.Const(1200, 7200), Setup: setup, Run: run},
 		},
 	}
